@@ -89,10 +89,13 @@ def _case(rng, malformed):
     nk = rng.choice([3, 4, 5])
     calls = []
     budget = 1500
+    odd = rng.random() < 0.25     # "", a very long key, a key with NUL, a unicode key (driver aliases k90..k93)
     esec = max(1, exp // S)
     for _ in range(rng.randint(10, 40)):
         r = rng.random()
         key = rng.choice(KEYS[:nk])
+        if odd and rng.random() < 0.4:
+            key = rng.choice(["k90", "k91", "k92", "k93"])
         if r < 0.28:
             calls.append({"op": "set", "key": key, "val": rng.randrange(100), "draw": _draw(rng)})
         elif r < 0.38:
@@ -161,7 +164,7 @@ def _jitter(rng):
 
 def _auth(rng):
     strict = rng.random() < 0.35
-    apps = ["a0", "a1", "a2"]
+    apps = ["a0", "a1", "a2"] if rng.random() < 0.6 else ["a0", "a5", "a6"]      # a5 / a6: very long / unicode app names
     toks = ["t0", "t1", "t2", "t3"]
     toks_all = toks
     ops = []
@@ -379,6 +382,62 @@ def _auth_fixed():
     return [{"kind": "auth", "strict": False, "ops": ops}, {"kind": "auth", "strict": True, "ops": ops}]
 
 
+def _flight(rng):
+    """overlapping Takes with gated fetch functions on one or two Cache instances over the odd key alphabet
+    (0,1 plain; 2 = ""; 3 very long; 4 with NUL; 5 unicode): same key on the same cache shares one fetch (also when
+    it fails), the same key string on ANOTHER cache runs its own"""
+    ncache = rng.choice([1, 2, 2])
+    steps, nid = [], 0
+    open_ = []           # ids of gated takes not yet released
+    for _ in range(rng.randint(4, 12)):
+        r = rng.random()
+        if r < 0.6 or not open_:
+            k = rng.choice([0, 1, 2, 2, 3, 4, 5])
+            c = rng.randrange(ncache)
+            gate = rng.random() < 0.6
+            steps.append({"op": "take", "id": nid, "cache": c, "key": k, "val": 10 + nid, "fail": rng.random() < 0.3, "gate": gate})
+            if gate:
+                open_.append(nid)
+            nid += 1
+            if rng.random() < 0.7:     # the same key again while (maybe) in flight: same cache -> shares, other cache -> own fetch
+                c2 = c if rng.random() < 0.5 else rng.randrange(ncache)
+                steps.append({"op": "take", "id": nid, "cache": c2, "key": k, "val": 10 + nid, "fail": rng.random() < 0.2,
+                              "gate": rng.random() < 0.3})
+                if steps[-1]["gate"]:
+                    open_.append(nid)
+                nid += 1
+        elif r < 0.8:
+            i = open_.pop(rng.randrange(len(open_)))
+            steps.append({"op": "release", "id": i})
+        else:
+            steps.append({"op": "get", "cache": rng.randrange(ncache), "key": rng.choice([0, 1, 2, 3, 4, 5])})
+    for k in (0, 2, 5):
+        for c in range(ncache):
+            steps.append({"op": "get", "cache": c, "key": k})
+    return {"kind": "flight", "caches": ncache, "steps": steps}
+
+
+def _flight_fixed():
+    out = []
+    for k in (0, 2, 3, 4, 5):       # per key of the alphabet, "" included
+        # two caches, same key: cache 1 must run its own fetch while cache 0's is in flight; within cache 0 it is shared
+        out.append({"kind": "flight", "caches": 2, "steps": [
+            {"op": "take", "id": 0, "cache": 0, "key": k, "val": 5, "fail": False, "gate": True},
+            {"op": "take", "id": 1, "cache": 1, "key": k, "val": 7, "fail": False, "gate": False},
+            {"op": "take", "id": 2, "cache": 0, "key": k, "val": 8, "fail": False, "gate": False},
+            {"op": "get", "cache": 1, "key": k}, {"op": "get", "cache": 0, "key": k},
+            {"op": "release", "id": 0}, {"op": "get", "cache": 0, "key": k}, {"op": "get", "cache": 1, "key": k},
+            {"op": "take", "id": 3, "cache": 0, "key": k, "val": 9, "fail": False, "gate": False}]})
+        # overlapping misses whose shared fetch fails: nobody caches, the next Take fetches again
+        out.append({"kind": "flight", "caches": 1, "steps": [
+            {"op": "take", "id": 0, "cache": 0, "key": k, "val": 1, "fail": True, "gate": True},
+            {"op": "take", "id": 1, "cache": 0, "key": k, "val": 2, "fail": False, "gate": False},
+            {"op": "take", "id": 2, "cache": 0, "key": k, "val": 3, "fail": False, "gate": False},
+            {"op": "release", "id": 0}, {"op": "get", "cache": 0, "key": k},
+            {"op": "take", "id": 3, "cache": 0, "key": k, "val": 4, "fail": False, "gate": False}, {"op": "get", "cache": 0, "key": k}]})
+    return out
+
+
 def _long(rng, hours):
     e = hours * H
     calls = [{"op": "set", "key": "k0", "val": 1, "draw": _draw(rng)}, {"op": "set", "key": "k1", "val": 2, "draw": 0},
@@ -393,7 +452,7 @@ def generate(rng, tier, n):
         cases += [_long(rng, 1), _long(rng, 3), _long(rng, 6)]
     nj = max(10, n // 12)
     na = max(10, n // 12)
-    cases += [_index_churn()] + _jitter_fixed() + _long_fixed() + _take_recency_fixed() + _mixed_fixed() + _auth_fixed()
+    cases += [_index_churn()] + _flight_fixed() + [_flight(rng) for _ in range(max(12, n // 15))] + _jitter_fixed() + _long_fixed() + _take_recency_fixed() + _mixed_fixed() + _auth_fixed()
     if tier == "thorough":
         cases += [_index_churn(second=True), _index_churn(keep=1040, churn=10017), _index_churn(keep=1003, churn=12000, second=True)]
     cases += [_jitter(rng) for _ in range(nj)]
@@ -436,7 +495,7 @@ def drive(cases, tier):
 
 def search(rng, problems):
     """long expiries first (fixed), then re-set at chosen wheel phases (the D7 classes seen through the cache)"""
-    out = _jitter_fixed() + _long_fixed() + _take_recency_fixed() + _mixed_fixed() + _auth_fixed() + [_mixed_reset(rng) for _ in range(40)]
+    out = _flight_fixed() + [_flight(rng) for _ in range(40)] + _jitter_fixed() + _long_fixed() + _take_recency_fixed() + _mixed_fixed() + _auth_fixed() + [_mixed_reset(rng) for _ in range(40)]
     for _ in range(150):
         e = rng.choice([20, 21, 19, 5, 60])
         phase = rng.randrange(300)
@@ -462,6 +521,19 @@ def encode(case, obs):
     if kind == "jitter":
         return "CJ (mkj %s %s %s %s)" % (cZ(case["base"]), clist([cZ(d) for d in case["draws"]]),
                                          clist([cZ(d) for d in obs.get("durs", [])]), clist([cZ(d) for d in obs.get("ints", [])]))
+    if kind == "flight":
+        steps = []
+        for x in case["steps"]:
+            if x["op"] == "take":
+                steps.append("FTake %s %s %s %s %s %s" % (cnat(x["id"]), cnat(x["cache"]), cnat(x["key"]), cnat(x["val"]), cbool(x["fail"]), cbool(x["gate"])))
+            elif x["op"] == "release":
+                steps.append("FRelease %s" % cnat(x["id"]))
+            else:
+                steps.append("FGet %s %s" % (cnat(x["cache"]), cnat(x["key"])))
+        takes = ["mkft %s %s %s" % (cnat(t["id"]), cbool(t["fetched"]), copt(cnat(t["val"]) if t["found"] else None)) for t in obs.get("takes", [])]
+        gets = [copt(cnat(g["val"]) if g["found"] else None) for g in obs.get("gets", [])]
+        hung = bool(obs.get("hung")) or "error" in obs or any(not t.get("done") for t in obs.get("takes", []))
+        return "CF (mkf %s %s %s %s)" % (clist(steps), clist(takes), clist(gets), cbool(hung))
     if kind == "auth":
         ops = []
         for o in case["ops"]:
@@ -535,6 +607,8 @@ def nontrivial(case, obs):
     if case.get("kind") == "auth":
         ops = [o["op"] for o in case["ops"]]
         return "down" in ops and "call" in ops[ops.index("down"):]
+    if case.get("kind") == "flight":
+        return any(not t["fetched"] for t in obs.get("takes", [])) and any(t["fetched"] for t in obs.get("takes", []))
     if obs.get("skipped"):
         return False
     expired, evicted, reset = _events(case, obs)
@@ -545,6 +619,15 @@ def bucket(case, obs):
     if case.get("kind") == "jitter":
         b = case["base"]
         return ["jitter:base<1h" if b < H else "jitter:base<30d" if b < 30 * 24 * H else "jitter:base>=30d"]
+    if case.get("kind") == "flight":
+        out = ["flight:caches=%d" % case["caches"]]
+        keys = {x["key"] for x in case["steps"] if x["op"] == "take"}
+        out += ["flight:key=%s" % {0: "plain", 1: "plain", 2: "empty", 3: "long", 4: "NUL", 5: "unicode"}[k] for k in sorted(keys)]
+        if any(t["err"] and not t["fetched"] for t in obs.get("takes", [])):
+            out.append("flight:shared-failure")
+        if obs.get("hung"):
+            out.append("obs:HUNG")
+        return sorted(set(out))
     if case.get("kind") == "auth":
         out = ["auth:strict" if case["strict"] else "auth:non-strict"]
         if any(o["op"] == "down" for o in case["ops"]):
@@ -599,6 +682,10 @@ def explain(case, obs):
     if case.get("kind") == "jitter":
         return ("AroundDuration/AroundInt returned a value outside [0.95, 1.05] x base (1 microsecond tolerance): the expiry "
                 "jitter is wrong or overflows for this base duration (c17_jitter_window)")
+    if case.get("kind") == "flight":
+        return ("overlapping Take calls: the fetch of a missing key must run once among the callers of THAT cache instance and "
+                "key (any key, the empty string included), every one of them gets its result, it is stored only on success, "
+                "and another cache instance with the same key string runs its own fetch (c17_take_fetches_iff_absent, C18)")
     if case.get("kind") == "auth":
         return ("the authenticator answered differently from 'a token is cached only by a successful store lookup': after "
                 "an outage the real token was not required again, or a cached token was not honoured (c17_take_error_not_cached)")
